@@ -95,6 +95,16 @@ def families(tier):
     out.append(('spaces-before-first', flags(sp_before_first=True), 'resp', lambda k: (RESP_LINE + b' \t' * (2 * k), 2, b'a:b\r\n\r\n')))
     out.append(('multi-space-delims', flags(multi_sp_resp=True), 'resp', lambda k: (b'HTTP/1.1' + b' ' * (2 * k) + b'200' + b' ' * (2 * k), 2, b'OK\r\n\r\n')))
     out.append(('chunk-extension', F0, 'chunk', lambda k: (b'1f;' + b'x' * (4 * k), 2, b'\r\n')))
+    # round-6 additions: every remaining loop of the grammar gets a family of its own
+    out.append(('spaces-after-name', flags(sp_after_name=True), 'resp', lambda k: (RESP_LINE + b'N' + b' \t' * (2 * k), 2, b':v\r\n\r\n')))
+    out.append(('long-reason', F0, 'resp', lambda k: (b'HTTP/1.1 200 ' + b'a b\t' * k, 2, b'\r\n\r\n')))
+    out.append(('long-name', F0, 'headers', lambda k: (b'n' * (4 * k), 2, b':v\r\n\r\n')))
+    out.append(('multi-space-delims-req', flags(multi_sp_req=True), 'req', lambda k: (b'GET' + b' ' * (2 * k) + b'/x' + b' ' * (2 * k), 2, b'HTTP/1.1\r\n\r\n')))
+    out.append(('long-ignored-line', flags(ignore_resp=True), 'resp', lambda k: (RESP_LINE + b'b' * (4 * k), 2, b'\r\nc\r\n\r\n')))
+    out.append(('ws-only-value', F0, 'headers', lambda k: (b'N:' + b' \t' * (2 * k), 2, b'\r\n\r\n')))
+    out.append(('folded-trailing-ws', flags(obs_fold=True), 'resp', lambda k: (RESP_LINE + b'X: a\r\n' + b' b  \r\n' * k, 2, b'\r\n')))
+    out.append(('chunk-ws', F0, 'chunk', lambda k: (b'1f' + b' \t' * (2 * k), 2, b'\r\n')))
+    out.append(('header-count', F0, 'headers', lambda k: (b'a:b\n' * k, 2, b'\n'), lambda k: k + 2))
     return out
 
 
@@ -109,11 +119,13 @@ def jobs(tier, seed):
     J += deepen(P, G, 'headers', lambda n: sc('headers', n, cap=3), range(T(tier, 8, 6), T(tier, 9, 11) + 1), bud, 'parse_headers, every {n}-byte buffer', 8, **kw)
     J += deepen(P, G, 'resp-hdr-simd', lambda n: sc('resp', n, prefix=RESP_LINE, api='cfg', fl=RESP_HDR_SYM, cap=3, variant='x86-rt'), range(T(tier, 5, 4), T(tier, 5, 7) + 1), bud, 'response (runtime-dispatch build) start line + every {n}-byte header block', 4, **kw)
     ks = [8, 16, 32, 64] + ([128] if tier == 'thorough' else [])
-    for name, fl, kind, mk in families(tier):
+    for fam in families(tier):
+        name, fl, kind, mk = fam[:4]
+        capf = fam[4] if len(fam) > 4 else (lambda k: 4)
         for variant in ('swar-rel', 'x86-rt'):
             for k in ks:
                 pre, ns, suf = mk(k)
-                s = sc(kind, ns, prefix=pre, suffix=suf, api='cfg', fl=fl, cap=4, variant=variant)
+                s = sc(kind, ns, prefix=pre, suffix=suf, api='cfg', fl=fl, cap=capf(k), variant=variant)
                 jb = product_job(P, f'fam-{name}-{variant}-k{k}', G, s, bud, f'family {name} ({variant}) at size k={k}: {len(pre) + ns + len(suf)} bytes, {ns} symbolic', family=f'fam-{name}-{variant}',
                                  fn='mirse.props.c20.leaf', extra={'family': f'{name}@{variant}', 'k': k}, validate_every=0, xcheck_every=0)
                 jb.small = True; J.append(jb)
